@@ -55,6 +55,9 @@ class BuckGophermapHandler(BaseHandler):
             and stat.S_ISREG(self.statresult[stat.ST_MODE])
         ):
             selector = self.getselector()
+            # Relative links are relative to the directory the file is in,
+            # not to the file itself.
+            self.selectorbase = selector[: selector.rindex("/")]
         else:
             selector = self.selectorbase + "/gophermap"
 
